@@ -1015,6 +1015,8 @@ def install_numpy(I):
     def np_copy(I, a, *args, **k):
         if isinstance(a, SArray):
             return SArray(a.length, a.snap(), a.kind)
+        if isinstance(a, SCompressed):
+            return SCompressed(a.fn, a.maskfn, a.length, a.kind)
         if isinstance(a, (list, tuple)):
             return np_array(I, a)
         raise Unsupported("copy of non-array")
